@@ -328,6 +328,15 @@ class _Rewrite(ast.NodeTransformer):
                 if ni is not st.iter or ast.dump(ni) != ast.dump(st.iter):
                     st.iter = ni
                     self.changed += 1
+            if isinstance(st, ast.AugAssign) and isinstance(st.op, ast.Add) and isinstance(st.value, ast.List) \
+                    and st.value.elts and not any(isinstance(x, ast.Starred) for x in st.value.elts) and _simple(st.target):
+                # xs += [a, b]  is  xs.append(a); xs.append(b)   (in-place for lists; a list display on the
+                # right means xs is a list)
+                self.changed += 1
+                for x in st.value.elts:
+                    out.append(ast.fix_missing_locations(ast.copy_location(ast.Expr(value=ast.Call(
+                        func=ast.Attribute(value=_as_load(st.target), attr='append', ctx=ast.Load()), args=[x], keywords=[])), st)))
+                continue
             if isinstance(st, ast.For) and st.orelse and len(st.body) == 1 and isinstance(st.body[0], ast.If) \
                     and not st.body[0].orelse and len(st.body[0].body) == 1 and isinstance(st.body[0].body[0], ast.Break) \
                     and isinstance(st.target, ast.Name) and not any(
